@@ -11,8 +11,13 @@ Local Open Scope N_scope.
 
 Definition nth_N {A} (l : list A) (i : N) : option A := nth_error l (N.to_nat i).
 
-(* [0; 1; ...; n-1] *)
-Definition nseq (n : N) : list N := map N.of_nat (seq 0 (N.to_nat n)).
+(* [0; 1; ...; n-1] (counting in binary: N.of_nat of each element would cost time linear in it) *)
+Fixpoint nseq_from (n : nat) (start : N) : list N :=
+  match n with
+  | O => []
+  | S n' => start :: nseq_from n' (N.succ start)
+  end.
+Definition nseq (n : N) : list N := nseq_from (N.to_nat n) 0.
 
 (* bitsFor: number of bits needed for an index into n values (0 and 1 give 0) *)
 Definition bits_for (n : N) : N := if n <? 2 then 0 else N.size (n - 1).
